@@ -4,8 +4,11 @@ package main
 import (
 	"fmt"
 	"os"
+	"runtime/debug"
+	"runtime/pprof"
 
 	"verif/mc"
+	"verif/props/c02"
 	"verif/props/c07"
 )
 
@@ -15,6 +18,7 @@ type check struct {
 }
 
 var checks = map[string]check{
+	"C02": {"model_checking", c02.Run},
 	"C07": {"model_checking", c07.Run},
 }
 
@@ -27,6 +31,16 @@ func main() {
 	if !ok {
 		fmt.Fprintln(os.Stderr, "unknown check", os.Args[1])
 		os.Exit(2)
+	}
+	// enumeration is allocation-heavy and short-lived: trade memory for fewer GC cycles
+	if os.Getenv("GOGC") == "" {
+		debug.SetGCPercent(300)
+	}
+	debug.SetMemoryLimit(12 << 30)
+	if pf := os.Getenv("VERIF_CPUPROFILE"); pf != "" {
+		f, _ := os.Create(pf)
+		pprof.StartCPUProfile(f)
+		mc.AtExit = pprof.StopCPUProfile
 	}
 	r := mc.Start(os.Args[1], c.level)
 	c.run(r)
